@@ -500,6 +500,63 @@ func c04Events(r *ev.Result) {
 			}
 		}
 	}
+	/* A listener that is slow: a buffer of one, nobody reading until two
+	shells have come and gone.  Every event is still delivered, in order
+	(C04-U: a fan-out that drops what a full channel does not take). */
+	for _, kind := range []string{"uni", "io"} {
+		w, err := hworld.Start(hworld.Config{})
+		if nil != err {
+			ev.Broken("%s", err)
+		}
+		evl := make(chan iobroker.Event, 1)
+		w.B.AddEventListener(evl)
+		allGone := true
+		for i := 0; i < 2; i++ {
+			in, out, err := attachShell(w, kind, fmt.Sprintf("slow%d", i))
+			if nil != err {
+				/* Drain so that nothing is blocked on us, then give up. */
+				go func() {
+					for range evl {
+					}
+				}()
+				w.Stop()
+				ev.Broken("c04 slow listener: %s", err)
+			}
+			out.Send("0\r\n\r\n")
+			_, gone := w.WaitNotice(func(cl opshell.CLine) bool { return strings.Contains(cl.Line, "Shell is gone") })
+			allGone = allGone && gone
+			in.Close()
+			out.Close()
+		}
+		var got []string
+		deadline := time.After(hworld.Watchdog)
+	collectSlow:
+		for len(got) < 4 {
+			select {
+			case e := <-evl:
+				got = append(got, string(e.Type))
+			case <-deadline:
+				break collectSlow
+			}
+		}
+		time.Sleep(50 * time.Millisecond)
+		for more := true; more; {
+			select {
+			case e := <-evl:
+				got = append(got, string(e.Type))
+			default:
+				more = false
+			}
+		}
+		w.B.RemoveEventListener(evl)
+		w.Stop()
+		n++
+		c, d := string(iobroker.EventTypeConnected), string(iobroker.EventTypeDisconnected)
+		if want := []string{c, d, c, d}; allGone && fmt.Sprint(got) != fmt.Sprint(want) {
+			r.Violate(ev.Violation{Signature: "http/events/slow-listener", Kind: "c04http", Replay: map[string]any{"slow_listener": true, "kind": kind},
+				What: fmt.Sprintf("an event listener with a buffer of one that reads only after two %s shells have attached and ended (both announced gone to the operator) heard %v, want %v", kind, got, want)})
+		}
+	}
 	r.Add(n)
 	r.AddDistinct(n)
 	r.Traces += n
